@@ -1,4 +1,4 @@
-package c09
+package jgram
 
 // Expressions, by JLS precedence level so that the text is valid Java however it is re-parsed.
 
